@@ -90,4 +90,25 @@ Section EquivDrain.
   Proof.
     unfold runf. evm. cbv [make_into bind ret lift_m into_val i_vec i_pos]. sym.
   Qed.
+  (* `impl Drop for IntoIter`: the body (the embedded vector is dropped afterwards by the drop glue:
+     Machine.into_drop = try_finally body (drop_vec v)) *)
+  Definition into_struct (it : into_it) : val :=
+    VStruct "IntoIter" [("v", VObj (i_vec it)); ("pos", VPtr (i_pos it)); ("marker", VCtor "PhantomData" [])].
+
+  Lemma into_drop_equiv it s :
+    runf into_iter__IntoIter__drop_ast [into_struct it] s = lift_m (into_drop_body cfg it) vunit s.
+  Proof.
+    unfold runf. destruct it as [v p]. evm. cbv [into_drop_body bind ret lift_m vunit i_vec i_pos]. sym.
+  Qed.
+
+  (* DrainFilter's DropGuard: move the unvisited tail down over the hole and restore the length *)
+  Definition guard_struct (pv : val) (f : dfilter_it) : val := VStruct "DropGuard" [("drain", filter_val pv f)].
+
+  Lemma filter_guard_equiv pv f s :
+    0 <= f_new f <= f_pos f -> f_pos f <= f_old f < W64 ->
+    runf drain_filter__DropGuard__drop_ast [guard_struct pv f] s = lift_m (filter_guard cfg f) vunit s.
+  Proof.
+    intros H1 H2. unfold runf. destruct f as [v o n p pk sc]. simpl in H1, H2.
+    evm. cbv [filter_guard bind ret lift_m vunit f_vec f_old f_new f_pos]. sym; absurd_arith.
+  Qed.
 End EquivDrain.
